@@ -19,6 +19,7 @@ CONSTANTS NM, NS, NH,      \* meshes, storages (incl. one position storage per m
           Depth, SeedIds,
           Ops1, Ops2, OpsN,
           MaxV, MaxE,      \* growth bounds per mesh
+          Flavours,        \* API flavours of the creation / lookup calls (0 generic templates, 1 per-kind wrappers, ...)
           Overwrite,       \* creation calls may also assign over bound slot 1
           Check,           \* "C14" | "C13": which oracles judge a step
           Emit             \* "none" | "tree" | "sim"
@@ -32,6 +33,8 @@ DefOf(t, s) == IF t = "int" THEN (IF s = "" THEN 7 ELSE IF s = "a" THEN 8 ELSE 9
 MTIdx(ty)   == IdxOf(MTypeSeq, ty)
 MNew(m, ty) == Call("mesh_new", m, 0, FALSE, <<MTIdx(ty)>>, "")
 Cr(op, m, h, k, t, s) == Call(op, m, h, FALSE, <<KindIdx(k), TypeIdx(t), DefOf(t, s)>>, s)
+CrF(op, m, h, k, t, s, fl) == Call(op, m, h, FALSE, <<KindIdx(k), TypeIdx(t), DefOf(t, s), fl>>, s)
+Fl(op, k) == Flavours \cap ValidFlavours(op, k)
 KC(op, m, a, b, l, f) == Call(op, m, 0, f, <<a, b>> \o l, "")
 AddV(m)     == KC("add_vertex", m, 0, 0, <<>>, FALSE)
 AddE(m, a, b) == KC("add_edge", m, a, b, <<>>, FALSE)
@@ -133,6 +136,8 @@ SeedScript(k) ==
                     MNew(2, "tpoly") >> \o Tri(2) \o
                  << Cr("create_persistent", 2, 2, "HF", "int", "b"), Cr("create_private", 2, 3, "C", "int", ""),
                     Cr("create_shared", 2, 4, "F", "bool", "a") >>
+    (* ---- one tetrahedron, so that every entity kind has entities: the per-kind API wrappers ---- *)
+    [] k = 30 -> << MNew(1, "poly") >> \o Tet(1)
     [] k = 16 -> << MNew(1, "poly") >> \o Seg(1) \o Mix(1, 1) \o << MCopy(2, 1), Cr("get_property", 2, 4, "V", "int", "a") >>
 
 Norm(x) == [x EXCEPT !.ret = "ok", !.busy = {}]
@@ -146,6 +151,7 @@ Targets1(x)  == (IF FreeSlots(x) = {} THEN {} ELSE {Min(FreeSlots(x))})
 Room(x, n)   == Cardinality(FreeIds(x)) >= n
 DeadMeshes(x) == Meshes(x) \ Alive(x)
 UserPers(x, m) == x.mesh[m].pers
+UsedKinds(x) == {x.sto[i].kind : i \in {j \in LiveIds(x) : x.sto[j].type # PosType}}
 Geo(x)       == {m \in Alive(x) : Geometric(x.mesh[m].ty)}
 Attached(x)  == {h \in Bound(x) : x.sto[x.slot[h]].trk # 0}
 Ends(n)      == IF n = 0 THEN {} ELSE {0, n - 1}
@@ -153,18 +159,27 @@ Ends(n)      == IF n = 0 THEN {} ELSE {0, n - 1}
 CallsOf(x, op) ==
   CASE op \in {"request", "create_shared", "create_persistent", "create_private"} ->
          IF ~Room(x, 1) THEN {}
-         ELSE {Cr(op, m, h, k, t, s) : <<m, h, k, t, s>> \in Alive(x) \X Targets1(x) \X Kinds \X Types \X Names}
+         ELSE UNION {{CrF(op, y[1], y[2], y[3], y[4], y[5], fl) : fl \in Fl(op, y[3])} :
+                        y \in Alive(x) \X Targets1(x) \X Kinds \X Types \X Names}
     [] op = "get_property" ->
-         {Cr(op, m, h, k, t, s) : <<m, h, k, t, s>> \in Alive(x) \X Targets1(x) \X Kinds \X Types \X Names}
+         UNION {{CrF(op, y[1], y[2], y[3], y[4], y[5], fl) : fl \in Fl(op, y[3])} :
+                   y \in Alive(x) \X Targets1(x) \X Kinds \X Types \X Names}
     [] op = "property_exists" ->
-         {Cr(op, m, 0, k, t, s) : <<m, k, t, s>> \in Alive(x) \X Kinds \X Types \X Names}
+         UNION {{CrF(op, y[1], 0, y[2], y[3], y[4], fl) : fl \in Fl(op, y[2])} : y \in Alive(x) \X Kinds \X Types \X Names}
+    (* lookups restricted to the entity kinds that carry a user property somewhere *)
+    [] op = "get_used" ->
+         UNION {{CrF("get_property", y[1], y[2], y[3], y[4], y[5], fl) : fl \in Fl("get_property", y[3])} :
+                   y \in Alive(x) \X Targets1(x) \X (Kinds \cap UsedKinds(x)) \X Types \X Names}
+    [] op = "exists_used" ->
+         UNION {{CrF("property_exists", y[1], 0, y[2], y[3], y[4], fl) : fl \in Fl("property_exists", y[2])} :
+                   y \in Alive(x) \X (Kinds \cap UsedKinds(x)) \X Types \X Names}
     [] op \in {"set_shared", "set_persistent"} ->
          {Call(op, x.sto[x.slot[h]].trk, h, on, <<>>, "") : <<h, on>> \in Attached(x) \X BOOLEAN}
     [] op = "set_name" -> {Call(op, 0, h, FALSE, <<>>, s) : <<h, s>> \in Bound(x) \X Names}
     [] op \in {"h_copy", "h_move"} ->
          {Call(op, 0, h, FALSE, <<h2>>, "") : <<h, h2>> \in {y \in Bound(x) \X DOMAIN x.slot : y[1] # y[2]}}
     [] op = "h_drop" -> {HDrop(h) : h \in Bound(x)}
-    [] op = "clear_props" -> {Call(op, m, 0, FALSE, <<KindIdx(k)>>, "") : <<m, k>> \in Alive(x) \X Kinds}
+    [] op = "clear_props" -> UNION {{Call(op, y[1], 0, FALSE, <<KindIdx(y[2]), fl>>, "") : fl \in Fl(op, y[2])} : y \in Alive(x) \X Kinds}
     [] op = "clear_all_props" -> {Call(op, m, 0, FALSE, <<>>, "") : m \in Alive(x)}
     [] op = "clear" -> {Call(op, m, 0, f, <<>>, "") : <<m, f>> \in Alive(x) \X BOOLEAN}
     [] op = "write" -> {Wr(h, i, 1) : <<h, i>> \in {y \in Bound(x) \X (0 .. 24) : y[2] \in Ends(Len(x.sto[x.slot[y[1]]].vals))}}
@@ -242,7 +257,9 @@ SimNext ==
      cs # {} /\ \E c \in {RandomElement(cs)} : Step(Canon(c))
 SimSpec == Init /\ [][SimNext]_vars
 
-View == <<w, bad, Len(path)>>
+(* the API flavour of the last call is part of the view: the follow-up of a    *)
+(* wrapper call is explored even though its world equals the generic call's   *)
+View == <<w, bad, Len(path), IF path = <<>> THEN 0 ELSE Flavour(path[Len(path)])>>
 
 EmitStep ==
   CASE Emit = "tree" ->
